@@ -227,7 +227,21 @@ template <std::size_t... I> static void belem_impl(Ctx& c, std::index_sequence<I
   o.end();
 }
 static void op_belem(Ctx& c) { belem_impl(c, std::make_index_sequence<G::BundleSize>()); }
+// writing through element<i>() changes exactly the i-th segment (owning bundle and a Map view of a bundle)
+template <std::size_t I> static void bwrite_one(Ctx& c) {
+  using E = typename G::template Element<I>;
+  G X = elemA(c); E Y = draw_element<E>("generic", "1", "any", "generic", c.r);
+  Eigen::Matrix<S, G::RepSize, 1> before = X.coeffs();
+  X.template element<I>() = Y;
+  std::vector<S> buf(G::RepSize + 8, (S)777); for (int i = 0; i < G::RepSize; ++i) buf[4 + i] = before(i);
+  { Eigen::Map<G> V(buf.data() + 4); V.template element<I>() = Y; }
+  Eigen::Map<Eigen::Matrix<S, Eigen::Dynamic, 1>> all(buf.data(), buf.size());
+  HEAD("bwrite") o.num("idx", (long)I); o.vec("before", before); o.vec("elem", Y.coeffs()); o.vec("after", X.coeffs()); o.vec("viewbuf", all); o.end();
+}
+template <std::size_t... I> static void bwrite_impl(Ctx& c, std::index_sequence<I...>) { auto l = { (bwrite_one<I>(c), 0)... }; (void)l; }
+static void op_bwrite(Ctx& c) { bwrite_impl(c, std::make_index_sequence<G::BundleSize>()); }
 #else
+static void op_bwrite(Ctx&) {}
 static void op_layout(Ctx&) {}
 static void op_belem(Ctx&) {}
 #endif
@@ -255,7 +269,7 @@ int main(int argc, char** argv) {
       else if (op == "generator") { op_generator(c); break; } else if (op == "algebra") op_algebra(c);
       else if (op == "isapprox") op_isapprox(c);
       else if (op == "alias") op_alias(c);
-      else if (op == "layout") { op_layout(c); break; } else if (op == "belem") op_belem(c);
+      else if (op == "layout") { op_layout(c); break; } else if (op == "belem") op_belem(c); else if (op == "bwrite") op_bwrite(c);
       else { std::fprintf(stderr, "unknown op %s\n", op.c_str()); return 3; }
     }
   }
